@@ -129,6 +129,8 @@ def rt (a : List String) (impl : List String) : String :=
       -- a reply after a last outcome that is a response carries exactly that upstream status (a missing reply is C03's concern)
       let lastOk := match script[ias.length - 1]? with
         | some (.resp c) => ias.length = 0 || final == "-" || final == toString c
+        -- the configured global timeout is applied: when it fires on the outstanding attempt the reply is the timeout status
+        | some .global => ias.length = 0 || final == "504"
         | _ => true
       let spec := traceOk p t && budgetOk && pathsOk && hdrsOk && kindsOk && lastOk && final != "multi"
       s!"{if m == out then "A" else "D"} {if spec then "S" else "V"} {m}"
